@@ -3,7 +3,7 @@ from fractions import Fraction
 import re
 
 from expr import E, INT, REAL, BOOL, to_real, ite, conj, disj, esum, implies, mk_not, imod
-from ir import LV, Assign, If, Assert, Assume, Havoc, ArrCopy, MapAssign
+from ir import LV, Assign, If, Assert, Assume, Havoc, ArrCopy, MapAssign, AssumeForall
 from values import *
 from cxxast import ExtractionError, get_class, src_text, where, params_of, body_of
 from ctypes_ import TD, TypeEnv, resolve, MAXV
@@ -348,6 +348,16 @@ class ExprMixin(object):
                     return E.const(False)
                 return StrTmp(em(x) & em(y))
             fail(n, 'string operator %s' % op)
+        if isinstance(x, StdVec) and isinstance(y, StdVec) and op in ('==', '!='):
+            # std::vector equality: same size and element-wise equal (witness index for the negative case)
+            b = self.new_scalar('veq', BOOL)
+            w = self.new_scalar('veq_w', INT)
+            self.emit(Havoc(scalars=[(b.name, BOOL), (w.name, INT)]))
+            self.emit(Assume(implies(b.rd(), x.size().eq(y.size())), 'vector ==: sizes'))
+            self.emit(AssumeForall(0, x.size(), lambda k, x=x, y=y, b=b: implies(b.rd(), x.at(k).eq(y.at(k))), 'vector ==: elements'))
+            self.emit(Assume(implies(mk_not(b.rd()), x.size().ne(y.size()) | ((w.rd() >= 0) & (w.rd() < x.size()) & x.at(w.rd()).ne(y.at(w.rd())))), 'vector !=: witness'))
+            self.notes.append('std::vector operator== modelled by size and element-wise equality')
+            return b.rd() if op == '==' else mk_not(b.rd())
         if isinstance(x, (PtrV, PtrSlot)) or isinstance(y, (PtrV, PtrSlot)):
             return self.ptr_cmp(op, x, y, n)
         if isinstance(x, IterV) and isinstance(y, IterV):
